@@ -143,6 +143,30 @@ def main():
     if after != expected:
         mism += 1
         example = example or "sequential results changed after the threaded run"
+    # tokenizers prepared by the MAIN thread, one per worker (exclusively owned), used on the worker threads
+    handed = [dic.create(modes[i % 3]) for i in range(len(streams))]
+    exp3 = [[obs(seq_tok[i % 3].tokenize(t)) for t in s[:40]] for i, s in enumerate(streams)]
+    got3 = [None] * len(streams)
+
+    def work3(i):
+        r = []
+        for t in streams[i][:40]:
+            try:
+                r.append(obs(handed[i].tokenize(t)))
+            except BaseException as e:
+                r.append("raised %s: %s" % (type(e).__name__, str(e)[:120]))
+        got3[i] = r
+
+    ths = [threading.Thread(target=work3, args=(i,)) for i in range(len(streams))]
+    for t in ths:
+        t.start()
+    for t in ths:
+        t.join()
+    for i in range(len(streams)):
+        for k in range(len(exp3[i])):
+            if got3[i] is None or got3[i][k] != exp3[i][k]:
+                mism += 1
+                example = example or "tokenizer created on the main thread, used on thread %d, text %r: %r" % (i, streams[i][k], (got3[i][k] if got3[i] else "thread died") if not isinstance(got3[i][k] if got3[i] else None, list) else "different morphemes")
     n2, m2, ex2 = pretok_phase(dic, streams)
     mism += m2
     example = example or (ex2 if m2 else None)
